@@ -724,7 +724,7 @@ def run(ctx):
     )
     try:
         stream_helpers(ctx, drv)
-        n_dirs = 160 if ctx.tier == "quick" else 900
+        n_dirs = 110 if ctx.tier == "quick" else 900
         stream_dirs(ctx, drv, n_dirs)
     finally:
         drv.close()
